@@ -148,7 +148,7 @@ def translate(scn, raw, recheck=True):
         kind = e["e"]
         if kind == "Reset":
             evs.append({"e": "Reset", "scn": scn["id"],
-                        "conf": {"useLogger": scn["mode"] != "bare", "recheck": recheck, "safeEnv": True, "locks": True, "eager": True, "rt": True, "disc": True,
+                        "conf": {"useLogger": scn["mode"] != "bare", "recheck": recheck, "safeEnv": True, "locks": True, "eager": True, "rt": True, "disc": True, "rehome": True,
                                  "fatalEvery": scn.get("fatalEvery", 0)},
                         "todo": dict({"p%d" % p: [["p%d" % p, i] for i in range(1, k + 1)] for p in range(1, n + 1)},
                                      **({"pw": [["pw", i] for i in range(1, relog + 1)]} if relog else {})),
@@ -289,6 +289,8 @@ def tlc_schedules(n, seed0):
 
 LIFE_SCRIPTS = {
     "quit": ["appCreate", "move", "execQuit", "appDestroy", "reset"],
+    # the same with moveToOwnThread() called by a second thread that runs no event loop (script of S2: one move)
+    "quit2": ["appCreate", "execQuit", "appDestroy", "reset"],
     "reset": ["appCreate", "move", "reset", "appDestroy", "reset"],
     "cycle": ["appCreate", "move", "reset", "move", "reset", "appDestroy", "reset"],
     "dtorlive": ["appCreate", "move", "reset", "free", "appDestroy"],
@@ -322,7 +324,7 @@ def life_child(bdir, path, n, k, delay, jitter, seed, late, timeout=40):
 
 
 def translate_life(sid, path, n, k, late, raw, rc):
-    script = {"M": list(LIFE_SCRIPTS[path]), "S2": []}
+    script = {"M": list(LIFE_SCRIPTS[path]), "S2": ["move"] if path == "quit2" else []}
     todo = {"p%d" % p: [["p%d" % p, i] for i in range(1, k + 1)] for p in range(1, n + 1)}
     total = n * k
     if late:
@@ -340,13 +342,13 @@ def translate_life(sid, path, n, k, late, raw, rc):
         kind = e["e"]
         if kind == "Reset":
             evs.append({"e": "Reset", "scn": sid,
-                        "conf": {"useLogger": True, "recheck": True, "safeEnv": True, "locks": True, "eager": True, "rt": True, "disc": True, "fatalEvery": 0},
+                        "conf": {"useLogger": True, "recheck": True, "safeEnv": True, "locks": True, "eager": True, "rt": True, "disc": True, "rehome": True, "fatalEvery": 0},
                         "todo": todo, "script": script, "app": "none"})
         elif kind == "App":
             left -= 1
             evs.append({"e": "App", "t": "M", "op": e["op"]})
         elif kind == "Op":
-            ev = {"e": "Op", "t": "M", "op": e["op"], "ph": e["ph"], "left": 0}
+            ev = {"e": "Op", "t": e.get("t", "M"), "op": e["op"], "ph": e["ph"], "left": 0}
             if e["ph"] == "end":
                 ev["left"] = -1
             evs.append(ev)
@@ -384,10 +386,10 @@ def translate_life(sid, path, n, k, late, raw, rc):
 def run_life_children(bdir, rnd, count):
     out = []
     for i in range(count):
-        path = rnd.choice(["quit", "quit", "reset", "cycle", "dtorlive", "dtorquit", "dtorspin", "cyclequit"])
+        path = rnd.choice(["quit", "quit", "quit2", "reset", "cycle", "dtorlive", "dtorquit", "dtorspin", "cyclequit"])
         n = rnd.choice([1, 2, 3])
         k = rnd.choice([0, 1, 5, 5, 20, 50])
-        late = path in ("quit", "reset") and rnd.random() < 0.4
+        late = path in ("quit", "quit2", "reset") and rnd.random() < 0.4
         delay = rnd.choice([0, 100, 1000, 5000]) if k <= 20 else rnd.choice([0, 100, 500])
         raw, rc, err, wall = life_child(bdir, path, n, k, delay, rnd.choice([0, 20, 50]), rnd.randrange(1 << 20), late)
         scn, evs, info = translate_life(9000 + i, path, n, k, late, raw, rc)
@@ -416,8 +418,10 @@ MC = {
     "C02": {"quick": ["MC_Threads_sync.cfg", "MC_Threads_syncbare.cfg"], "thorough": ["MC_Threads_sync.cfg", "MC_Threads_syncbare.cfg", "MC_Threads_sync4.cfg"],
             "witness": [("MC_Threads_nolock.cfg", "invariant MutualExclusion")]},
     "C03": {"quick": ["MC_Threads_async.cfg"], "thorough": ["MC_Threads_async.cfg", "MC_Threads_async3.cfg"], "witness": []},
-    "C04": {"quick": ["MC_Threads_life.cfg", "MC_Threads_twofixed.cfg"], "thorough": ["MC_Threads_life.cfg", "MC_Threads_twofixed.cfg", "MC_Threads_life3.cfg"],
-            "witness": [("MC_Threads_two.cfg", "invariant NoUseAfterFree"), ("MC_Threads_noapp.cfg", "temporal")]},
+    "C04": {"quick": ["MC_Threads_life.cfg", "MC_Threads_twofixed.cfg", "MC_Threads_rehome.cfg"],
+            "thorough": ["MC_Threads_life.cfg", "MC_Threads_twofixed.cfg", "MC_Threads_rehome.cfg", "MC_Threads_life3.cfg"],
+            "witness": [("MC_Threads_two.cfg", "invariant NoUseAfterFree"), ("MC_Threads_noapp.cfg", "temporal"),
+                        ("MC_Threads_norehome.cfg", "action-property QuitFindsHook")]},
 }
 
 
